@@ -163,6 +163,49 @@ fn main() {
     run.ev.set("exhaustive", json!(true));
     run.ev.set("samples", json!([{"b": 4, "add_hashed": ["0x0", "0xffffffffffffffff", "0x10"], "expected_registers": {"0": 61, "15": 1}, "note": "hash 0 has no set bit among the remaining 60 bits -> rank 61; 0x10 also addresses register 0 with rank 60; all-ones addresses register 15 with rank 1"}]));
     run.ev.set("rule", json!("for every b in 4..=18 every sequence of add_hashed over the ~78-hash boundary universe up to the listed depth; registers compared with the specification; pairwise commutation and idempotence in the states of the last expanded level"));
+    // the whole register file: long sequences that raise every register several times in different orders and rank patterns
+    // (anything the sketch maintains about all registers at once - a cached minimum, a zero count - only moves when the last
+    // register of a level is reached); registers are compared with the specification after every add, for b = 4, 5, 6
+    {
+        let mut cases = 0u64;
+        let mut bad: Option<String> = None;
+        for b in [4usize, 5, 6] {
+            let m = 1u64 << b;
+            let hash = |j: u64, r: u64| -> u64 { if r == 0 { j } else { j | (1u64 << (64 - r)) } };
+            let orders: Vec<Box<dyn Fn(u64) -> u64>> = vec![Box::new(|i| i), Box::new(move |i| m - 1 - i), Box::new(move |i| (i * 5 + 3) % m), Box::new(move |i| (i * 7 + (i / 3)) % m)];
+            for (oi, order) in orders.iter().enumerate() {
+                for pattern in 0..4u64 {
+                    cases += 1;
+                    let r = mccore::panics::catch(|| {
+                        let mut s = hll::fresh(b);
+                        let mut want = vec![0u8; m as usize];
+                        for pass in 0..(64 - b as u64 + 2) {
+                            for i in 0..m {
+                                let j = order(i);
+                                let rank = match pattern { 0 => pass + 1, 1 => 1 + (pass + j) % 3, 2 => 1 + pass / 2 + (i % 2), _ => if pass % 5 == 4 { 0 } else { 1 + pass } }.min(64 - b as u64 + 1);
+                                let h = hash(j, if rank == 64 - b as u64 + 1 { 0 } else { rank });
+                                let (idx, rk) = hll::reference(b, h);
+                                want[idx] = want[idx].max(rk);
+                                s.add_hashed(h);
+                                if s.registers() != &want[..] {
+                                    return Some(format!("b={} order #{} rank pattern #{}: after {} add_hashed calls (last hash {:#x} = register {}, rank {}) the registers differ from the specification", b, oi, pattern, pass * m + i + 1, h, idx, rk));
+                                }
+                            }
+                        }
+                        None
+                    });
+                    match r {
+                        Err(p) => bad = bad.or(Some(format!("b={} order #{} pattern #{}: panicked: {}", b, oi, pattern, p))),
+                        Ok(x) => bad = bad.or(x),
+                    }
+                }
+            }
+        }
+        if let Some(m) = bad {
+            run.violation(Viol { property: "C17".into(), signature: "hll register value (whole register file)".into(), message: m.clone(), replay: serde_json::json!({"what": m, "hash_of(register j, rank r)": "j | 1 << (64 - r); rank 64-b+1 = j alone", "orders": ["i", "m-1-i", "(5i+3) mod m", "(7i + i/3) mod m"]}) });
+        }
+        run.ev.set("whole_register_file_cases", serde_json::json!(cases));
+    }
     // the Extend implementations deliver the same streams: extend(chunk1); extend(chunk2) == add loop
     let (xp_cases, xp_viols) = checks::extendpaths::hll(if thorough { 5 } else { 4 });
     for v in xp_viols {
